@@ -3,12 +3,62 @@
 import json, os, sys
 V = os.path.dirname(os.path.dirname(os.path.abspath(__file__)))
 
+MGR_NOTE = 'Trusted: Coq kernel; the constants/guards translator (vlib/translate/manager_tr.py); the fake-socket harness (vlib/mgr_worker.py: select/socket/time/random/os replaced in the namespace of pyrtma.manager, set iteration order pinned) and the independent wire decoder (vlib/mgr_wire.py); the control skeleton of manager.py is hand-modelled in coq/manager/Model/Manager.v and tied by differential execution on every run (every write and the crash class compared). Not modelled: Python recursion limit (model: explicit nesting budget XFuel), fd exhaustion, stalled readers, control frames shorter than their definition. No axioms (Print Assumptions: closed).'
+
 CLAIMED = {
+ "C01": dict(
+    text="Theorems for ALL histories/schedules/fault plans over the executable manager model: every reachable state satisfies the registry invariant (run_safe), hence the recipient snapshot of forward_message is duplicate-free for every type but the ALL sentinel (exactly once), contains only registered open modules that subscribed to the type or to all types; generated destination guards = protocol ranges; destination filter as stated; invalid destination -> nobody; a successful write carries the published header with only msg_count stamped. The byte-level end-to-end statement is decided by differential execution (model vs real MessageManager on scripted histories incl. every service order the script chooses, unwritable subsets, loggers, both header layouts) plus an independent spec oracle over a monitor's complete stream.",
+    note=MGR_NOTE, technique="Coq invariant proof over an executable state machine (Hoare logic, induction on histories and nesting fuel) + model/implementation correspondence by vm_compute + spec oracle", design="6/C01"),
+ "C03": dict(
+    text="Theorem C03_never_crashes: for every configuration, every nesting budget and EVERY finite history of events (any header field any integer, any declared length, any name bytes, EOF/reset/truncation anywhere, any service order, any writable sets, any set of simultaneous write failures, any number of connections) the model of MessageManager.run() never raises - the only non-Ok outcome is exhaustion of the model's explicit nesting budget - and every reachable state satisfies the registry/identity invariants. Every partial operation of manager.py (recv_into sizes, ctypes array indexing, ascii decoding, writes to closed sockets, set/dict mutation during iteration, del of a missing key, dynamic-id exhaustion) is an explicit Crash in the model, so the theorem is about exactly those. Tied to the code by regenerated guards and by differential execution incl. malformed and fault streams; 8 crash defects of the pinned tree were found this way and repaired (fix: commits).",
+    note=MGR_NOTE, technique="Coq proof of totality + invariant (Hoare logic with in-flight-removal set, frame relation) + correspondence + fault/malformed-input enumeration", design="6/C03"),
+ "C05": dict(
+    text="Theorems (stage 1): the only write path stamps the connection's own counter+1 into the header it writes and writes header then payload consecutively; sendall only appends; manager-originated headers declare the size of the payload kind they carry; acks are whole zero-payload frames. Stream-level statements (counts 1..n per connection, whole frames, same relative order on all receivers) are decided for every generated history by differential execution against the model and by an independent oracle on the byte streams.",
+    note=MGR_NOTE, technique="Coq lemmas on the write primitive + correspondence + stream oracle", design="6/C05"),
+ "C06": dict(
+    text="Theorems for ALL histories: C06_unique (no two live modules share an id unless both non-unique, in every reachable state), C06_connect (a connection request leaves every other module's identity untouched; the requester ends unregistered, or with an id in range and clash-free), C06_dynamic_fresh (dynamic ids are fresh and in range from every cursor position, give-up only when all 100 are taken), generated user-id range. The options half (Client.connect / client_context) is decided by driving the real client against a scripted peer over every option vector (found and fixed: client_context passed allow_multiple as daemon).",
+    note=MGR_NOTE, technique="Coq invariant proof + correspondence + option-plumbing probe", design="6/C06"),
+ "C07": dict(
+    text="Theorems for ALL histories: remove_module (however reached, also nested inside a delivery) ends with the module unregistered, keeps the registry invariant and only shrinks the registry (Frame: nobody else's identity/subscriptions change); in every reachable state subscriber lists contain only registered open modules, so a departed module is never a recipient; uniqueness constrains only live modules (id reusable at once). 'Exactly one CLIENT_CLOSED' and unaffected delivery of the in-flight message are decided by correspondence + oracle (monitor stream), incl. directed nested-departure histories.",
+    note=MGR_NOTE, technique="Coq invariant/frame proof + correspondence + spec oracle", design="6/C07"),
  "C11": dict(
     text="Coq theorems over an executable model of Parser.check_alignment/validate_msg_def for ALL field lists (any length, any nesting depth via the closure lemma): accepted => aligned, contiguous, size multiple of strictest alignment, natural C layout == explicit layout; auto-pad only adds char fields; no-auto-pad accepted iff no padding needed; size limit. Model tied to the code by a regenerated native-type table and size guard (Python-ast translator) and by differential execution of the real Parser vs the model (vm_compute) incl. gcc offsetof/sizeof probes.",
     note="Trusted: Coq kernel, the table translator, the correspondence harness, gcc/ctypes on x86-64 as the reference for 'natural layout'. Loop skeleton of check_alignment is hand-modelled (validated by correspondence, not verified). No axioms (Print Assumptions: closed).",
     technique="Coq proof (induction over field lists, Z.divide arithmetic) + model/implementation correspondence by vm_compute",
     design="6/C11"),
+ "C14": dict(
+    text="Theorems (case analysis of the model's delivery decision, for every state): an unwritable non-logger recipient gets the drop branch and send_failed_message with the header as stamped; a logger outside the writable set is sent to, never dropped; any write failure removes the module and invokes send_failed_message; the notice names the module id and embeds the original header; no notice for FAILED_MESSAGE/RTMA_LOG* (generated guard list); the rest of the snapshot is still visited. End-to-end statement decided by correspondence + oracle incl. directed no-cascade histories for every guarded type id and its neighbours.",
+    note=MGR_NOTE, technique="Coq case-analysis lemmas + correspondence + spec oracle", design="6/C14"),
+ "C18": dict(
+    text="Theorems for ALL counter contents (any number of distinct types): C18_traffic_exact - the entries of the MESSAGE_TRAFFIC sub-messages up to each terminator, concatenated, are exactly the interval's (type, count mod 2^16) pairs, each once, in order; C18_timing_exact - exactly the types with a slot are written with their counts, never an index error; statistics messages are not counted. Guards (send-when-full, tail, slot range) regenerated from the code each run. Tied by correspondence and an oracle that recounts the monitor stream per interval (found and fixed: traffic chunking, timing index).",
+    note=MGR_NOTE, technique="Coq proof by induction on the counter list with the chunk-loop invariant + correspondence + recount oracle", design="6/C18"),
+ "C19": dict(
+    text="Theorems (case analysis of process_message/send_ack in the model, all states): every SUBSCRIBE/UNSUBSCRIBE/PAUSE/RESUME ends in exactly one send_ack to its sender whether or not the request changed anything; a connection request is acknowledged iff accepted (never a refused one, nor the CONNECT after an accepted CONNECT_V2); DISCONNECT/SET_NAME/MODULE_READY/data never call send_ack; the ack is one zero-payload ACKNOWLEDGE addressed to the sender's id on its own connection, then copied to loggers. Stream-level order/exactly-once decided by correspondence + oracle.",
+    note=MGR_NOTE, technique="Coq case-analysis lemmas + correspondence + spec oracle", design="6/C19"),
+ "C02": dict(
+    text="Coq theorems over the client/manager subscription models for ALL operation histories and argument shapes: C02_agree (reported = delivered, paused not delivered), C02_refused (+manager side), C02_ctx_restore / C02_pause_ctx_restore for every entry state and list (after the two context-manager fixes), with the CPython list-iteration semantics modelled. _subscription_control and the manager's add/remove_subscription are TRANSLATED from the source on every run; context managers hand-modelled; tied by differential execution of the real Client against the real MessageManager with probe publishes (exhaustive length-2 sequences, all context entries over a 3-type universe).",
+    note="Trusted: Coq kernel, vlib/translate/client_sub.py, the client/manager harness (real TCP on localhost). 'Other clients are irrelevant' is assumed from reading, not proved. No axioms.",
+    technique="Coq proof (induction over operation lists, set algebra) over translated definitions + correspondence", design="6/C02"),
+ "C08": dict(
+    text="Coq theorems over the model of Client._read_message/read_message for ALL frame sequences: C08_resync, C08_resync_next, C08_sequence, C08_faithful, C08_filter, C08_lost (FIN or RST at any byte offset, after the rst/drain fixes). Guards, drain lengths, MSG_WAITALL flags and the _connected-clearing of every loss path are translated from the source each run (removing one breaks C08_lost by itself). Tied by driving the real Client over real TCP against a scripted peer: all frame-kind sequences of length <=3, FIN/RST at every byte offset, two-segment deliveries.",
+    note="Trusted: Coq kernel, translator, scripted-peer harness; Linux TCP FIN/RST semantics of recv(MSG_WAITALL) modelled and validated by the every-offset cases. No axioms.",
+    technique="Coq proof (induction over frame lists) + translated guards + correspondence over real TCP", design="6/C08"),
+ "C04": dict(
+    text="Coq: C04_tables (finite sweep over the regenerated six native-type tables, every name agrees in width/class everywhere), C04_sig / C04_layout for every accepted closure (corollary of C11 + tables), hash literal forms. Tied by compiling generated closures with the real compiler in CLI order and separately, loading each output (python import+ctypes, gcc probe, node, .m reader). Open recorded findings: py:name-collision, matlab:prefix-stripped-inside-name.",
+    note="Trusted: Coq kernel, table/core-defs translators, loaders (gcc x86-64, ctypes, node), MATLAB checked statically only. No axioms.",
+    technique="Coq finite sweep by vm_compute lifted with forallb_forall + structural proofs + correspondence", design="6/C04"),
+ "C15": dict(
+    text="Coq: C15_total (no internal error for any input of the model's construct universe), per-back-end scoping theorems (every use preceded by its definition) - full for constructs without the recorded cross-section shapes, _refuted/_partial for alias-of-struct, struct-field-of-message-type, MATLAB header without core defs, C macro capture; C15_js_fresh in full. The scoping model is validated against the real loaders on every run.",
+    note="Trusted: as C04. Open recorded findings (emission order across sections) are identified by construct class; any other load failure is reported.",
+    technique="Coq proof over emission-event lists + correspondence with real loaders", design="6/C15"),
+ "C16": dict(
+    text="(a) determinism: decided by differential execution only (same closure compiled repeatedly, other cwd/out dir/hash seed, another closure in between) - stated plainly, no theorem; (b) C16_combined: combined-YAML round trip is the identity on the parsed state under the stated backward-uses condition (proved as a stable sort by section rank), _refuted for the recorded cross-file shapes; (c) C16_core_current: the shipped core YAML pushed through the Coq model equals what core_defs.py contains (constants, ids, sizes, every field's class and length), re-computed every run from regenerated Gen files, plus textual comparison with a fresh compile.",
+    note="Trusted: as C04; clause (a) is not a proof.",
+    technique="Coq proof (merge/sort) + closed computation by vm_compute + differential execution", design="6/C16"),
+ "C17": dict(
+    text="Coq theorem C17_holds over the two-thread small-step model of DataCollection/DataSet (model of the code after fix 510a13f): for EVERY recorder program, EVERY schedule and every number of steps, written ++ pending ++ rbuf = selected arrivals, no loss/duplication/reordering, files finalised after stop; format theorems for raw/json/quicklogger incl. reader models. The hand-off shape is translated fail-closed from data_collection.py; tied by running the real classes under a cooperative scheduler on complete schedule trees of small programs and random larger ones, files read back with the package's readers.",
+    note="Trusted: Coq kernel, gen_logger.py, the cooperative scheduler (switch points = Event operations and buffer operations); termination/fairness not proved; atomicity at switch-point granularity. No axioms.",
+    technique="Coq inductive invariant over an interleaved small-step relation + correspondence under a deterministic scheduler", design="6/C17"),
 }
 NOT_YET = {}
 ALL = ["C%02d" % i for i in range(1, 20)]
